@@ -5,8 +5,8 @@ use educe::Educe;
 use core::cmp::Ordering;
 #[derive(Educe)]
 #[educe(Hash)]
-pub struct T(#[educe(Hash(ignore))] A<0>, #[educe(Hash(method("m_hash")))] A<1>);
-pub fn values() -> Vec<T> { vec![T(A(0), A(0)), T(A(0), A(1)), T(A(0), A(7)), T(A(1), A(0)), T(A(1), A(1)), T(A(1), A(7)), T(A(7), A(0)), T(A(7), A(1)), T(A(7), A(7))] }
-pub fn show(x: &T) -> String { #[allow(unused_variables)] match x { T(p0, p1) => format!("T({},{})", sv(p0), sv(p1)) } }
-pub fn o_hash(x: &T) -> Vec<String> { let mut e = Rec::default(); match x { T(p0, p1) => { m_hash(p1, &mut e); } } e.0 }
+pub enum T { Some(#[educe(Hash(method = "m_hash"))] A<0>), Unit(A<0>, #[educe(Hash(method = "m_hash"))] A<1>, #[educe(Hash(method(m_hash)))] A<2>, #[educe(Hash(method = m_hash))] A<0>), None, V1 }
+pub fn values() -> Vec<T> { vec![T::Some(A(0)), T::Some(A(1)), T::Some(A(7)), T::Unit(A(0), A(1), A(0), A(7)), T::Unit(A(1), A(1), A(7), A(7)), T::Unit(A(1), A(0), A(1), A(1)), T::Unit(A(0), A(7), A(0), A(0)), T::Unit(A(7), A(7), A(7), A(0)), T::Unit(A(1), A(0), A(0), A(1)), T::Unit(A(0), A(7), A(0), A(7)), T::Unit(A(0), A(7), A(0), A(1)), T::Unit(A(1), A(7), A(0), A(0)), T::Unit(A(7), A(1), A(1), A(1)), T::Unit(A(7), A(7), A(0), A(7)), T::Unit(A(1), A(0), A(0), A(0)), T::None, T::V1] }
+pub fn show(x: &T) -> String { #[allow(unused_variables)] match x { T::Some(p0) => format!("Some({})", sv(p0)), T::Unit(p0, p1, p2, p3) => format!("Unit({},{},{},{})", sv(p0), sv(p1), sv(p2), sv(p3)), T::None => format!("None()"), T::V1 => format!("V1()") } }
+pub fn o_hash(x: &T) -> Vec<String> { let mut e = Rec::default(); match x { T::Some(p0) => { ::core::hash::Hash::hash(&0usize, &mut e); m_hash(p0, &mut e); }, T::Unit(p0, p1, p2, p3) => { ::core::hash::Hash::hash(&1usize, &mut e); ::core::hash::Hash::hash(p0, &mut e); m_hash(p1, &mut e); m_hash(p2, &mut e); m_hash(p3, &mut e); }, T::None => { ::core::hash::Hash::hash(&2usize, &mut e); }, T::V1 => { ::core::hash::Hash::hash(&3usize, &mut e); } } e.0 }
 pub fn run(out: &mut Out) { let vs = values(); for a in &vs { let mut g = Rec::default(); ::core::hash::Hash::hash(a, &mut g); let e = o_hash(a); out.check(g.0 == e, "hash_27", "hash", || format!("hash({}) fed {:?} expected {:?}", show(a), g.0, e)); } }
